@@ -458,7 +458,8 @@ def relerr(a, b):
 
 
 # ----------------------------------------------------------------------------- M-NeoxScript correspondence
-_KIND = {'all_reduce': 'ar', 'broadcast': 'bc', 'all_gather': 'ag', 'reduce_scatter': 'rs'}
+_KIND = {'all_reduce': 'ar', 'broadcast': 'bc', 'all_gather': 'ag', 'reduce_scatter': 'rs',
+         'all_gather_object': 'ao', 'barrier': 'ba'}
 
 
 def impl_issues(rr, r):
@@ -476,9 +477,15 @@ def impl_issues(rr, r):
 
 
 def script_line(cfg, rr):
-    """the `neoxs` model line for a run whose history consists of training passes and steps only"""
-    if any(o not in ('f1', 's') for o in cfg.ops):
+    """the `neoxs` model line: training passes, steps, checkpoints (state_dict in memory / into a directory, load into a
+    fresh preconditioner, in-place roll-back)"""
+    if any(o not in ('f1', 's', 'v', 'l1', 'l0', 'k', 'b', 'B') for o in cfg.ops):
         return None
+    d_ = 'd' if cfg.ckpt_dir else 'm'
+    if d_ == 'd' and any(o in ('b', 'B') for o in cfg.ops):
+        return None
+    tok = {'f1': ['f'], 's': ['s'], 'v': ['v' + d_], 'k': ['v' + d_], 'l1': ['v' + d_, 'l' + d_], 'l0': ['v' + d_, 'l' + d_],
+           'b': ['bm'], 'B': ['bm']}
     stages = []
     for p in range(cfg.pp):
         r0 = next(r for r in range(cfg.world) if rr.res[r]['coord'][0] == p)
@@ -496,7 +503,7 @@ def script_line(cfg, rr):
     return (f'neoxs pp={cfg.pp} dp={cfg.dp} mp={cfg.mp} stages={"|".join(stages)} tokens={tokens} fus={cfg.fus} ius={cfg.ius} '
             f'bucketed={int(cfg.cap_mb > 0)} cap={int(cfg.cap_mb * 1000 * 1000)} es=8 sym={int(cfg.sym)} cube=1 '
             f'hook={int(cfg.hook)} accum={cfg.accum} '
-            f'ops={",".join("f" if o == "f1" else "s" for o in cfg.ops)}')
+            f'ops={",".join(t for o in cfg.ops for t in tok[o])}')
 
 
 def compare_script(ctx, pend):
